@@ -84,6 +84,16 @@ def programs(tier):
                     bodies.append(("if(e[i]==%d)" % k,
                                    lambda s, k=k: _fe_ifelse(s, lambda s2, i: s2.e[i] == k),
                                    lambda v, k=k: all(x == (1 if E_VALS[i] == k else 2) for i, x in enumerate(v["l"]))))
+                # complemented non-random operands in a condition known at expansion time (m is 3 bits wide and 2, the
+                # literal has m's width: ~m is 5 under both readings of the width rules)
+                for k in (5, 2):
+                    bodies.append(("if(~m==%d)" % k,
+                                   lambda s, k=k: _fe_ifelse(s, lambda s2, i: (~s2.m) == vsc.unsigned(k, 3)),
+                                   lambda v, k=k: all(x == (1 if k == 5 else 2) for x in v["l"])))
+                for k in (1, 2):
+                    bodies.append(("if(~e[i]==%d)" % k,
+                                   lambda s, k=k: _fe_ifelse(s, lambda s2, i: (~s2.e[i]) == vsc.unsigned(k, 2)),
+                                   lambda v, k=k: all(x == (1 if (~E_VALS[i] & 3) == k else 2) for i, x in enumerate(v["l"]))))
                 bodies.append(("if(e[i]>m-1)", lambda s: _fe_ifelse(s, lambda s2, i: s2.e[i] > s2.m - 1),
                                lambda v: all(x == (1 if E_VALS[i] > 1 else 2) for i, x in enumerate(v["l"]))))
             if signed:
